@@ -68,6 +68,8 @@ struct LitCase {
     stmt: String,
     expected: Ev,
     features: u32,
+    /// (type name, expression text): the same literal for use in other syntactic positions
+    alt: Option<(String, String)>,
 }
 
 fn underscores(digits: &str, c: &mut Choices, feats: &mut u32) -> String {
@@ -121,7 +123,7 @@ fn int_literal(c: &mut Choices) -> LitCase {
     let text = format!("{body}{suffix}");
     // the context (annotated let) fixes the type when there is no suffix
     let stmt = format!("let q: {} = {}; out_{}(q);", t.name(), text, t.name());
-    LitCase { stmt, expected: Ev::Out(V::Int(t, v)), features: feats }
+    LitCase { stmt, expected: Ev::Out(V::Int(t, v)), features: feats, alt: Some((t.name().to_string(), text)) }
 }
 
 fn float_literal(c: &mut Choices) -> Option<LitCase> {
@@ -184,7 +186,7 @@ fn float_literal(c: &mut Choices) -> Option<LitCase> {
         V::F64(d)
     };
     let stmt = format!("let q: {tname} = {text}; out_{tname}(q);");
-    Some(LitCase { stmt, expected: Ev::Out(expected), features: feats })
+    Some(LitCase { stmt, expected: Ev::Out(expected), features: feats, alt: Some((tname.to_string(), text)) })
 }
 
 fn spell_char(ch: char, in_string: bool, c: &mut Choices, feats: &mut u32) -> String {
@@ -260,7 +262,7 @@ fn char_literal(c: &mut Choices) -> LitCase {
     let ch = gen_char(c);
     let mut feats = 0;
     let text = spell_char(ch, false, c, &mut feats);
-    LitCase { stmt: format!("out_char('{text}');"), expected: Ev::Out(V::Char(ch)), features: feats }
+    LitCase { stmt: format!("out_char('{text}');"), expected: Ev::Out(V::Char(ch)), features: feats, alt: Some(("char".into(), format!("'{text}'"))) }
 }
 
 fn string_literal(c: &mut Choices) -> LitCase {
@@ -289,7 +291,7 @@ fn string_literal(c: &mut Choices) -> LitCase {
         }
         after_continuation = false;
     }
-    LitCase { stmt: format!("out_String(\"{text}\");"), expected: Ev::Out(V::Str(val)), features: feats }
+    LitCase { stmt: format!("out_String(\"{text}\");"), expected: Ev::Out(V::Str(val)), features: feats, alt: Some(("String".into(), format!("\"{text}\""))) }
 }
 
 fn fstring_literal(c: &mut Choices) -> LitCase {
@@ -345,7 +347,7 @@ fn fstring_literal(c: &mut Choices) -> LitCase {
             }
         }
     }
-    LitCase { stmt: format!("out_String(f\"{text}\");"), expected: Ev::Out(V::Str(val)), features: feats }
+    LitCase { stmt: format!("out_String(f\"{text}\");"), expected: Ev::Out(V::Str(val)), features: feats, alt: Some(("String".into(), format!("f\"{text}\""))) }
 }
 
 fn ip_literal(c: &mut Choices) -> LitCase {
@@ -394,9 +396,9 @@ fn ip_literal(c: &mut Choices) -> LitCase {
         };
         let sp = if c.chance(128) { " " } else { "" };
         let expected = format!("prefix:{}", inetnum::addr::Prefix::new(masked, len).expect("valid prefix"));
-        return LitCase { stmt: format!("out_Prefix({text}{sp}/{sp}{len});"), expected: Ev::Out(V::Str(expected)), features: feats };
+        return LitCase { stmt: format!("out_Prefix({text}{sp}/{sp}{len});"), expected: Ev::Out(V::Str(expected)), features: feats, alt: Some(("Prefix".into(), format!("{text}{sp}/{sp}{len}"))) };
     }
-    LitCase { stmt: format!("out_IpAddr({text});"), expected: Ev::Out(V::Str(format!("ip:{ip}"))), features: feats }
+    LitCase { stmt: format!("out_IpAddr({text});"), expected: Ev::Out(V::Str(format!("ip:{ip}"))), features: feats, alt: Some(("IpAddr".into(), text)) }
 }
 
 fn asn_literal(c: &mut Choices) -> LitCase {
@@ -406,7 +408,7 @@ fn asn_literal(c: &mut Choices) -> LitCase {
         2 => c.u16() as u32,
         _ => c.u64() as u32,
     };
-    LitCase { stmt: format!("out_Asn(AS{n});"), expected: Ev::Out(V::Str(format!("asn:{n}"))), features: 1 }
+    LitCase { stmt: format!("out_Asn(AS{n});"), expected: Ev::Out(V::Str(format!("asn:{n}"))), features: 1, alt: Some(("Asn".into(), format!("AS{n}"))) }
 }
 
 // --------------------------------------------------------------------------- worker
@@ -459,11 +461,46 @@ impl W {
                 cases.push(lc);
             }
         }
+        // one literal in four stands in another syntactic position: directly after `return`, `accept`
+        // or `reject` (with or without a semicolon, alone or behind a condition), or first in a block
+        let mut helpers = String::new();
         let mut src = String::from("fn main() {\n    let x = 7;\n");
-        for lc in &cases {
+        for (k, lc) in cases.iter_mut().enumerate() {
+            let pos = c.below(20);
+            if let (Some((t, e)), true) = (lc.alt.clone(), pos < 6) {
+                // f-strings that mention `x` need it in scope
+                let px = "let x = 7; ";
+                match pos {
+                    0 => {
+                        let _ = writeln!(helpers, "fn zz_l{k}() -> {t} {{ {px}return {e} }}");
+                        lc.stmt = format!("out_{t}(zz_l{k}());");
+                    }
+                    1 => {
+                        let _ = writeln!(helpers, "fn zz_l{k}() -> {t} {{ {px}if x == 7 {{ return {e}; }} return {e};\n}}");
+                        lc.stmt = format!("out_{t}(zz_l{k}());");
+                    }
+                    2 => {
+                        let _ = writeln!(helpers, "fn zz_l{k}() -> Verdict[{t}, ()] {{ {px}accept {e} }}");
+                        lc.stmt = format!("match zz_l{k}() {{ Accept(q) => out_{t}(q), Reject(q) => {{}} }}");
+                    }
+                    3 => {
+                        let _ = writeln!(helpers, "fn zz_l{k}() -> Verdict[(), {t}] {{ {px}if x == 7 {{ reject {e}; }} accept }}");
+                        lc.stmt = format!("match zz_l{k}() {{ Accept(q) => {{}}, Reject(q) => out_{t}(q) }}");
+                    }
+                    4 => {
+                        let _ = writeln!(helpers, "fn zz_l{k}() -> {t} {{ {px}{{ {e} }} }}");
+                        lc.stmt = format!("out_{t}(zz_l{k}());");
+                    }
+                    _ => {
+                        lc.stmt = format!("out_{t}(if x == 7 {{ {e} }} else {{ {e} }});");
+                    }
+                }
+                lc.features += 1;
+            }
             let _ = writeln!(src, "    {{ {} }};", lc.stmt);
         }
         src.push_str("}\n");
+        src.push_str(&helpers);
         let mut pkg = match host::compile(&self.rt, &src) {
             Ok(p) => p,
             Err(e) => {
